@@ -300,7 +300,7 @@ func emitReplay(prop string, seed uint64, v engine.ViolRec, minimise bool) (stri
 	digest := v.Digest
 	orig := len(acts)
 	note := ""
-	if minimise {
+	if minimise && prop != "C19" {
 		m, r, tests := engine.Minimize(v.Config, acts, v.Violation, engine.Options{Target: prop}, 120*time.Second)
 		if r != nil && r.Violation != nil {
 			acts, viol, digest = m, r.Violation, r.Digest
@@ -544,6 +544,17 @@ func replayMain(args []string) int {
 	if r.ToolError != "" {
 		fmt.Fprintf(os.Stderr, "tool error: %s\n", r.ToolError)
 		return 2
+	}
+	if rf.Property == "C19" && r.Violation == nil {
+		// determinism: several executions of the same call sequence
+		for i := 0; i < 8 && r.Violation == nil; i++ {
+			r.Violation = engine.DeterminismCheck(r, engine.Options{Target: "C19"})
+		}
+		if r.Violation != nil {
+			fmt.Printf("replay %s: %s\n", fs.Arg(0), r.Violation)
+			fmt.Printf("VIOLATION property=C19 replay=%s\n", fs.Arg(0))
+			return 1
+		}
 	}
 	if r.Violation == nil {
 		fmt.Printf("replay %s: no violation (digest %s)\n", fs.Arg(0), r.Digest)
